@@ -38,6 +38,25 @@ p = os.path.join(ROOT, 'DESIGN.md')
 s = open(p).read()
 a = s.index('## 12. Seeded changes: which checks catch which') + len('## 12. Seeded changes: which checks catch which')
 b = s.index('## 13. False alarms that were corrected')
+ref = []
+import glob as _g
+for d in sorted(_g.glob(os.path.join(ROOT, 'refactors', '*', 'result.json'))):
+    n = os.path.basename(os.path.dirname(d)); res = json.load(open(d))
+    what = ''
+    wp = os.path.join(os.path.dirname(d), 'what.txt')
+    if os.path.exists(wp): what = re.sub(r'\s+', ' ', open(wp).read())[:200]
+    al = []
+    for k, v in sorted(res.items()):
+        if v['rc']:
+            nofail = all('no-failing' in l for l in v['violations'])
+            al.append('%s (%s)' % (k, 'tie broken, no failing input' if nofail else 'FAILING INPUT REPORTED'))
+    ref.append('| %s | %s | %s |' % (n, what.replace('|', '/'), ', '.join(al) or 'none'))
+txt += ('\n\n### 12a. Behaviour-preserving refactorings: which checks raise an alarm\n\n'
+        'Three sub-agents wrote twelve harmless refactorings (front end / option writers; numerical core; geometry, topology, formatter), each with '
+        'a differential test of its own; `bin/refrun <name> <diff>` applies one to `/repo`, runs the quick checks and restores `/repo`.  The table is '
+        'the LAST run of each (after the translator fallback of §4.1 and the interprocedural walk of X19 were added; before them R2-1, R2-2, R2-4 broke '
+        'the translator contract in C01, C02, C03, C07, C08, C10, C11, C14).  No oracle and no correspondence stage reported a failing input on any of them.\n\n'
+        '| refactoring | what | alarms of the last run |\n|------|------|------|\n' + '\n'.join(ref))
 s = s[:a] + '\n\n' + txt + '\n\n' + s[b:]
 open(p, 'w').write(s)
 print(len(rows), 'seeds')
